@@ -13,7 +13,7 @@ from . import common as C
 KEY_D24 = "broker:unsubscribe-overtakes-inflight"
 
 BACKENDS = [["chan", 0], ["chan", 2], ["queue", "unl"], ["queue", "lim", 2, 4, 2], ["deque", "unl"], ["deque", "cap", 2],
-            ["lifo", 2]]
+            ["lifo", 2], ["lifo", 1]]
 
 
 # ---------------------------------------------------------------------------------------------
